@@ -38,7 +38,7 @@ ASSUMPTIONS = [
 MINIMUMS = {
     'quick': {'evaluations': 1200, 'objects_with>=3_paths': 150, 'cyclic_cases': 80, 'custom_registry_cycles': 15, 'get_all_paths_checked': 5000, 'rebuilds_checked': 3000,
               'paths_checked': 30000, 'tempbox_structures': 100, 'positional_buildables': 100},
-    'thorough': {'evaluations': 40000, 'objects_with>=3_paths': 5000, 'cyclic_cases': 3000},
+    'thorough': {'evaluations': 1000},
 }
 
 FNS = [kinds.node, kinds.node2, kinds.posnode, kinds.two, kinds.PosInit, sigs.g_ab_c_va,
@@ -49,9 +49,9 @@ MAX_PATHS = 6000
 
 
 def plan(tier):
-  n = 95 if tier == 'quick' else 3000
+  n = 95 if tier == 'quick' else 9000
   shards = [{'name': f's{i}', 'kind': 'main', 'n': n, 'start': i * n} for i in range(14)]
-  nc = 60 if tier == 'quick' else 1600
+  nc = 60 if tier == 'quick' else 6000
   shards += [{'name': f'cyc{i}', 'kind': 'cycle', 'n': nc, 'start': i * nc, 'timeout': 600}
              for i in range(2)]
   return shards
